@@ -136,7 +136,7 @@ class C15(core.Check):
         r = self.rng
         n = 420
         out = [Series(k, indlib.candles(r, n, k)) for k in (['walk', 'flat', 'trend', 'alt', 'spike', 'gappy'] + (['down', 'lattice', 'walk', 'stall'] if big else []))]
-        for name, f in (('huge', 2.0 ** 20), ('tiny', 2.0 ** -20)):
+        for name, f in (('huge', 2.0 ** 20), ('tiny', 2.0 ** -20), ('micro', 2.0 ** -34)):   # 1e6, 1e-6, 6e-11 x the price
             c = indlib.candles(r, n, 'walk')
             c[:, 1:5] *= f
             out.append(Series(name, c))
